@@ -273,6 +273,10 @@ func init() {
 		}
 		panic(unsupported("errors.Is: Unwrap chain longer than 16"))
 	}
+	intrinsics[vrt+"DistinctRandomness"] = func(e *Engine, fr *frame, fn *ssa.Function, args []Value) Value {
+		e.randStream = true
+		return nil
+	}
 	intrinsics[vrt+"Ticks"] = func(e *Engine, fr *frame, fn *ssa.Function, args []Value) Value {
 		e.ticks = int(e.concretize(e.asInt(args[0]), 0, 64, "verifrt.Ticks"))
 		e.tickEpoch++
@@ -1090,6 +1094,18 @@ func init() {
 	// ------------------------------------------------------------ crypto/rand
 	intrinsics["crypto/rand.Read"] = func(e *Engine, fr *frame, fn *ssa.Function, args []Value) Value {
 		b := args[0].(Slice)
+		if e.randStream {
+			// "distinct draws" mode (verifrt.DistinctRandomness): the byte stream is a sequence of
+			// 4-byte big-endian counters starting at 1, so any two windows of >= 4 bytes at different stream
+			// offsets differ - the idealisation "no two random draws ever coincide"
+			for i := range b.V {
+				p := e.randPos
+				e.randPos++
+				ctr := uint32(p/4) + 1
+				b.V[i] = e.st.Const(8, uint64(byte(ctr>>(8*(3-uint(p%4))))))
+			}
+			return Tuple{e.st.Const(64, uint64(len(b.V))), Iface{}}
+		}
 		var draw []*Term
 		for i := range b.V {
 			t := e.fresh("rand", 8) // not a replay input: natively crypto/rand supplies real randomness
